@@ -9,7 +9,7 @@ from cpverif.models import rowmodel as RM
 LEVEL = "exploration"
 RULE = (
     "enumerated: header 0-3 x number of rows 0-6 (header rows included) x one bad row (rejected cell, or wrong item count / an empty line "
-    "for delimited data) at every position incl. inside the header, or no bad row, or (cutplace.rows only) two rows with a rejected cell at every pair of positions x validation limit in {none, 0 .. "
+    "for delimited data) at every position incl. inside the header, or no bad row, or (cutplace.rows in yield mode / Reader in continue mode with its counters) two rows with a rejected cell at every pair of positions x validation limit in {none, 0 .. "
     "rows+1} x API {cutplace.rows in yield mode, cutplace.validate, applications.main --until (in-process); sampled: two passes over one Reader, the CID named by a path whose file is rewritten for every case} x storage "
     "{delimited, fixed; thorough also ODS and XLSX}. Expected from M-reader with the (header, limit) window; for "
     "cutplace.validate a generator monitor on Reader.rows additionally counts the rows pulled (must not exceed the limit). "
@@ -81,6 +81,22 @@ def check(ctx, kind, store, header, nrows, bad_at, bad_kind, limit, api):
                             break
                 ctx.violation(key, case, "cutplace.rows produced other items than the (header, limit) window allows",
                               expected=[[w[0], w[1]] for w in want], observed=gen.describe_items(got))
+        elif api == "rows-continue":
+            # the same window in continue mode: exactly the rows of yield mode, and counters that add up to the data rows
+            reader = validio.Reader(gen.load_cid(model), source, on_error="continue", validate_until=limit)
+            try:
+                got_rows = [list(item) for item in reader.rows()]
+                counters = [reader.accepted_rows_count, reader.rejected_rows_count]
+            finally:
+                try:
+                    reader.close()
+                except errors.CheckError:
+                    pass
+            want_rows = [list(w[1]) for w in run["items"] if w[0] == "row"]
+            want_counters = [len(want_rows), len(run["items"]) - len(want_rows)]
+            if got_rows != want_rows or counters != want_counters:
+                ctx.violation("C07:rows-continue", case, "continue mode produced other rows / counters than the (header, limit) window allows",
+                              expected=[want_rows, want_counters], observed=[got_rows, counters])
         elif api in ("reader-twice", "rows-cid-path"):
             if api == "rows-cid-path":
                 # the CID is named by its path; the file at that path is rewritten for every case
@@ -200,7 +216,7 @@ def run(ctx):
                     for limit in [None] + list(range(0, nrows + 2)):
                         index += 1
                         if ctx.mine(index):
-                            check(ctx, kind, store, header, nrows, [first_bad, second_bad], "cell", limit, "rows")
+                            check(ctx, kind, store, header, nrows, [first_bad, second_bad], "cell", limit, "rows" if index % 2 else "rows-continue")
                             ctx.count("cases.with-two-bad-rows")
     # a sample of ODS / XLSX in the quick tier too
     if ctx.quick:
